@@ -20,8 +20,13 @@ StageClauses(tr, stage) ==
   CASE stage = "Convert" ->
          IF ErrorKinds(w) # {} THEN (IF ob.status = "error" THEN {} ELSE {"RejectedWithTopologyError"})
          ELSE IF Undecided(w) THEN {}
-         ELSE IF Inconsistent(w) THEN (IF ob.status = "error" \/ (ob.status = "ok" /\ WiringFailing(w, ob.topo) = {}) THEN {}
-                                       ELSE {"InconsistentRowsRejectedOrWired"})
+         \* rejected, or converted: then nothing dangles AND every FUSED / amplifier site of degree 2 is crossed through
+         \* its own elements (two separate verdicts: orphan elements are one thing, a site by-passed by a direct
+         \* fibre -> fibre splice another)
+         ELSE IF Inconsistent(w) THEN (IF ob.status = "error" THEN {}
+                                       ELSE IF ob.status # "ok" THEN {"InconsistentRowsRejectedOrWired"}
+                                       ELSE (IF WiringFailing(w, ob.topo) = {} THEN {} ELSE {"InconsistentRowsRejectedOrWired"})
+                                            \cup CrossingFailing(w, ob.topo))
          ELSE IF ob.status # "ok" THEN {"ConvertsValidWorkbook"}
          ELSE Failing(w, ob.topo)
     [] stage = "Load" ->
